@@ -41,6 +41,7 @@ static ent_t* tab; static int ntab;
 static int pend[MAXOBJ]; static int npend; /* freed objects already noticed (address reused by a new object) */
 
 static hawk_t* hawk; static hawk_rtx_t* rtx; static long baseline;
+static int exited; /* a called function executed `exit`: hawk_rtx_callfun refuses further calls */
 
 static void on_alarm (int sig) { printf("HANG\n"); fflush(stdout); _exit(3); }
 
@@ -176,7 +177,17 @@ static void close_all (int report)
 static int open_all (void)
 {
 	hawk_parsestd_t psin[2]; hawk_errnum_t en;
-	static const hawk_bch_t* src = "BEGIN { }";
+	/* the functions the host calls with hawk_rtx_callwithbcstr (`call` op; model: lean/HawkModel/GcCall.lean) */
+	static const hawk_bch_t* src =
+		"function keep (a, b, k) { return a; }\n"
+		"function drop2(a, b, k) { return 0; }\n"
+		"function dropr(a, &b, k) { return 0; }\n"
+		"function store(a, b, k) { a[k] = b; return 0; }\n"
+		"function wrap (a, b, k) { @local t; t[\"k0\"] = a; t[\"k1\"] = b; return t; }\n"
+		"function cyc  (a, b, k) { @local t; t[\"k0\"] = a; t[\"k1\"] = t; return 0; }\n"
+		"function fail (a, b, k) { @local t, z; t[\"k0\"] = a; t[\"k1\"] = t; z = 0; return 1 / z; }\n"
+		"function quit (a, b, k) { @local t; t[\"k0\"] = a; t[\"k1\"] = t; exit 3; }\n"
+		"BEGIN { }";
 	live_blocks = 0;
 	hawk = hawk_openstdwithmmgr(&mmgr, 0, HAWK_NULL, &en);
 	if (!hawk) return -1;
@@ -188,7 +199,7 @@ static int open_all (void)
 	/* plain hawk_rtx_open: no ARGV/ENVIRON maps, the generation lists start empty */
 	rtx = hawk_rtx_open(hawk, 0, HAWK_NULL);
 	if (!rtx) return -1;
-	ntab = 0;
+	ntab = 0; exited = 0;
 	return 0;
 }
 
@@ -367,6 +378,75 @@ int main (int argc, char** argv)
 		{
 			if (!LIVE(x) || tab[x].holders <= 0) { printf("r=ERR"); dump (); }
 			else { tab[x].holders--; hawk_rtx_refdownval (rtx, tab[x].ptr); printf("r=ok"); dump (); }
+		}
+		else if (!strcmp(op, "call") && sscanf(line, "%*s %31s %ld %ld", a1, &x, &y) == 3)
+		{
+			/* the host calls a hawk function (hawk_rtx_callwithbcstr -> hawk_rtx_callfun -> hawk_rtx_evalcall -> run_block):
+			 * the frame holds the arguments, the locals and the return value while the body runs; the body ends by
+			 * return, by a run-time error (fail) or by exit (quit) */
+			static const char* fns[] = { "keep", "drop2", "store", "wrap", "cyc", "fail", "quit", "dropr" };
+			int fi = -1, q;
+			for (q = 0; q < 8; q++) if (!strcmp(a1, fns[q])) fi = q;
+			if (fi < 0) { printf("bad-op\n"); }
+			else if (!LIVE(x) || !LIVE(y) || exited || ntab >= MAXOBJ || tab[x].nslots >= MAXSLOT) { printf("r=ERR"); dump (); }
+			else
+			{
+				hawk_val_t* args[3]; hawk_val_t* rv; ent_t* p = &tab[x]; long k = free_key(p); int i, newid = -1;
+				args[0] = tab[x].ptr; args[1] = tab[y].ptr;
+				if (p->is_arr) args[2] = hawk_rtx_makeintval(rtx, k);
+				else { char kb[32]; snprintf(kb, sizeof(kb), "k%ld", k); args[2] = hawk_rtx_makestrvalwithbcstr(rtx, kb); }
+				if (!args[2]) { printf("alloc-failed\n"); fflush(stdout); return 2; }
+				hawk_rtx_refupval (rtx, args[2]);
+				rv = hawk_rtx_callwithbcstr(rtx, a1, args, 3);
+				hawk_rtx_refdownval (rtx, args[2]);
+				/* containers freed by a collection inside the call are noticed before anything new is registered */
+				for (i = 0; i < ntab; i++) if (tab[i].live && tab[i].ptr != rv && gen_of(tab[i].ptr) < 0) { tab[i].live = 0; tab[i].holders = 0; pend[npend++] = i; }
+				if (fi == 0)
+				{
+					if (rv != tab[x].ptr) { printf("call-mismatch keep\n"); fflush(stdout); return 2; }
+					tab[x].holders++; /* the reference hawk_rtx_callfun hands out is kept */
+				}
+				else if (fi == 3)
+				{
+					ent_t* e;
+					if (!rv || HAWK_RTX_GETVALTYPE(rtx, rv) != HAWK_VAL_MAP) { printf("call-mismatch wrap\n"); fflush(stdout); return 2; }
+					for (i = 0; i < ntab; i++) if (tab[i].live && tab[i].ptr == rv) { tab[i].live = 0; tab[i].holders = 0; pend[npend++] = i; }
+					e = &tab[ntab]; memset (e, 0, sizeof(*e));
+					e->ptr = rv; e->live = 1; e->is_arr = 0; e->holders = 1; e->nslots = 2;
+					e->key[0] = 0; e->child[0] = (int)x; e->key[1] = 1; e->child[1] = (int)y;
+					newid = ntab++;
+				}
+				else
+				{
+					if (fi == 5 && rv) { printf("call-mismatch fail returned a value\n"); fflush(stdout); return 2; }
+					if (rv) hawk_rtx_refdownval (rtx, rv);
+					if (fi == 2) { p->key[p->nslots] = k; p->child[p->nslots] = (int)y; p->nslots++; }
+					if (fi >= 4 && fi <= 6)
+					{
+						/* the local container the body left behind as cyclic garbage: the one chained container not in the table */
+						int g; hawk_gch_t* gch; hawk_val_t* nv = HAWK_NULL; int cnt = 0;
+						for (g = 0; g < HAWK_COUNTOF(rtx->gc.g); g++)
+							for (gch = rtx->gc.g[g].gc_next; gch != &rtx->gc.g[g]; gch = gch->gc_next)
+								if (id_of(hawk_gch_to_val(gch)) < 0) { nv = hawk_gch_to_val(gch); cnt++; }
+						if (cnt == 1)
+						{
+							ent_t* e = &tab[ntab]; memset (e, 0, sizeof(*e));
+							e->ptr = nv; e->live = 1; e->is_arr = 0; e->holders = 0; e->nslots = 2;
+							e->key[0] = 0; e->child[0] = (int)x; e->key[1] = 1; e->child[1] = ntab;
+							newid = ntab++;
+						}
+						else
+						{
+							/* released already (it must not be: it refers to itself) or more than one: reserve the id, the dump shows it */
+							ent_t* e = &tab[ntab]; memset (e, 0, sizeof(*e));
+							pend[npend++] = ntab; ntab++;
+						}
+						if (fi == 6) exited = 1;
+					}
+				}
+				if (fi == 3) printf("r=%d", newid); else printf("r=ok");
+				dump ();
+			}
 		}
 		else if (!strcmp(op, "gc") && sscanf(line, "%*s %ld", &x) == 1)
 		{
